@@ -71,20 +71,35 @@ class _Int(T):
             ctx.var_bounds[str(c)] = (self.lo, self.hi)
         return SInt(c)
 
+    def from_prefix(self, ctx, rid, k):
+        """element of a symbolic-length list: an uninterpreted function of the position"""
+        kt = z3.IntVal(k) if isinstance(k, int) else k
+        t = z3.Function('elem_%s' % rid, z3.IntSort(), z3.IntSort())(kt)
+        if ctx is not None:
+            if self.lo is not None:
+                ctx.fact(t >= self.lo)
+            if self.hi is not None:
+                ctx.fact(t <= self.hi)
+        return SInt(t)
+
 
 class _Bool(T):
     def fresh(self, ctx, name):
         return SBool(ctx.fresh_bool(name))
 
+    def from_prefix(self, ctx, rid, k):
+        kt = z3.IntVal(k) if isinstance(k, int) else k
+        return SBool(z3.Function('elem_%s' % rid, z3.IntSort(), z3.BoolSort())(kt))
+
 
 class _Bytes(T):
     """bytes of any length (symbolic), or of fixed length n (`Bytes(n)`), or bounded (`Bytes(max=n)`)."""
 
-    def __init__(self, n=None, max=None, split=False):
-        self.n, self.max, self.split = n, max, split
+    def __init__(self, n=None, max=None, split=False, ne=None, min=None):
+        self.n, self.max, self.split, self.ne, self.min = n, max, split, ne, min   # ne: a byte string the value differs from; min: least length (preconditions)
 
-    def __call__(self, n=None, max=None, split=False):
-        return _Bytes(n, max, split)
+    def __call__(self, n=None, max=None, split=False, ne=None, min=None):
+        return _Bytes(n, max, split, ne, min)
 
     def fresh(self, ctx, name):
         if self.split and self.max is not None:
@@ -115,14 +130,28 @@ class _Bytes(T):
             ctx.assume(int_term_(value.length()) <= 2)
 
     def from_prefix(self, ctx, rid, k):
+        kt = z3.IntVal(k) if isinstance(k, int) else k
+        if self.n is not None:
+            items = []
+            for i in range(self.n):
+                e = z3.Function('elem_%s[%d]' % (rid, i), z3.IntSort(), z3.IntSort())(kt)
+                if ctx is not None:
+                    ctx.byte_fact(e)
+                items.append(e)
+            return SBytes(items=items) if items else b''
         f = z3.Function('elem_%s' % rid, z3.IntSort(), IntSeq)
         fl = z3.Function('elemlen_%s' % rid, z3.IntSort(), z3.IntSort())
-        kt = z3.IntVal(k) if isinstance(k, int) else k
         t, n = f(kt), fl(kt)
         if ctx is not None:
             ctx.fact(n >= 0)
+            if self.max is not None:
+                ctx.fact(n <= self.max)
+            if self.min is not None:
+                ctx.fact(n >= self.min)
             ctx.couple(t, n)
             ctx.len_terms[n.get_id()] = n
+            if self.ne is not None:
+                ctx.fact(z3.Not(z3.And(n == len(self.ne), *[t[i] == b for i, b in enumerate(self.ne)])))
         return SBytes(seq=SeqPart(t, n))
 
 
@@ -185,6 +214,25 @@ class Const(T):
     def fresh(self, ctx, name):
         return self.v() if callable(self.v) and getattr(self.v, '_factory', False) else self.v
 
+    def from_prefix(self, ctx, rid, k):
+        return self.fresh(ctx, rid)
+
+
+class Position(T):
+    """record field of a list element that holds the element's own position in the list (representation invariant such as
+    Input.index_n == position); only meaningful inside ListOf(RecordOf(...))"""
+
+    def fresh(self, ctx, name):
+        raise NotImplementedError('Position is only defined for elements of a symbolic-length list')
+
+    def sample(self, rng):
+        return 0          # filled in by the contract's `prepare` (the real constructor numbers the elements)
+
+    def from_prefix_rec(self, ctx, base_rid, field, k):
+        n0 = z3.Int('len_' + base_rid)
+        kt = z3.IntVal(k) if isinstance(k, int) else k
+        return SInt(z3.simplify(n0 - kt))
+
 
 class RecordOf(T):
     """Object of real class `cls` with the given typed attributes (heap shape concrete)."""
@@ -198,6 +246,22 @@ class RecordOf(T):
         for k, t in self.fields.items():
             r.attrs[k] = t.fresh(ctx, '%s.%s' % (name, k)) if isinstance(t, T) else t
         return r
+
+    def from_prefix(self, ctx, rid, k):
+        """element k (counted from the right end) of the symbolic-length list `rid`: every field is an uninterpreted function of the position"""
+        cls = self.cls if not isinstance(self.cls, str) else resolve(self.cls)[0]
+        r = Rec(cls)
+        for name, t in self.fields.items():
+            if not isinstance(t, T):
+                r.attrs[name] = t
+            elif hasattr(t, 'from_prefix_rec'):
+                r.attrs[name] = t.from_prefix_rec(ctx, rid, name, k)
+            else:
+                r.attrs[name] = t.from_prefix(ctx, '%s.%s' % (rid, name), k)
+        return r
+
+    def restrict(self, ctx, value):
+        return None
 
 
 class OpaqueT(T):
@@ -284,7 +348,9 @@ def contract(target, case=None, props=()):
 
 
 class LoopContract:
-    def __init__(self, target, ordinal, invariant, variant=None, modifies=(), havoc_types=None, ghost=None, ghost_step=None):
+    def __init__(self, target, ordinal, invariant, variant=None, modifies=(), havoc_types=None, ghost=None, ghost_step=None, index='k', defines=None):
+        self.index = index
+        self.defines = defines or {}
         self.ghost_step = ghost_step
         self.target, self.ordinal = target, ordinal
         self.invariant, self.variant = invariant, variant
@@ -293,12 +359,25 @@ class LoopContract:
         self.ghost = ghost or {}
 
 
-def loop(target, ordinal, modifies=(), havoc_types=None, variant=None, ghost=None, ghost_step=None):
-    """@loop('module.func', 0) def inv(locals...) -> bool      (loop ordinal: source order of while/for in the function)"""
+def loop(target, ordinal, modifies=(), havoc_types=None, variant=None, ghost=None, ghost_step=None, index='k', defines=None):
+    """@loop('module.func', 0) def inv(locals...) -> bool      (loop ordinal: source order of while/for in the function).
+    For a `for x in <symbolic-length list>` loop the invariant may name the ghost variable `index` (default k): the number of
+    elements processed so far."""
     def deco(fn):
-        LOOPS[(target, ordinal)] = LoopContract(target, ordinal, fn, variant, modifies, havoc_types, ghost, ghost_step)
+        LOOPS[(target, ordinal)] = LoopContract(target, ordinal, fn, variant, modifies, havoc_types, ghost, ghost_step, index, defines)
         return fn
     return deco
+
+
+def fold(step, init, lst, upto, key=None):
+    """step(step(...step(init, lst[0], 0)..., lst[upto-2], upto-2), lst[upto-1], upto-1): the left fold of the first `upto` elements.
+    Natively a plain loop.  Under the verifier, for a symbolic-length list, an uninterpreted function of `upto` together with its
+    defining equations instantiated at `upto` (one unfolding), which is what an inductive loop invariant needs.
+    `key` names the fold (two folds with the same key over the same list are the same function: the key must determine `step`)."""
+    acc = init
+    for j in range(upto):
+        acc = step(acc, lst[j], j)
+    return acc
 
 
 def store(arr, i, v):
